@@ -827,6 +827,10 @@ def run_double_swap(ctx, VerletEngine, runner_reqs, quantis, lm1, name, F, s0, m
     return None, True
 
 
+def case_size(c):
+    return (len(c.old0) + len(c.old1) + sum(len(r) for _, r in c.script if r is not None), int(c.quantis), len(c.moves) and int("wf" in c.moves))
+
+
 # --------------------------------------------------------------------------- run
 
 
@@ -866,23 +870,38 @@ def run(ctx):
                 ctx.dist(f"{var} status <{raw['error']}>")
         outs = runner.run(reqs)
         corr_fail = 0
+        oracle_fail, corr_bad = [], []
         for req, mo, (io, err, c) in zip(reqs, outs, metas):
             ctx.count(req, nontrivial=True)
             if err:
-                ctx.violation(f"C11 statement fails on the implementation: {err}",
-                              {"kind": "lockstep", "case": c.desc(), "impl": io, "model": mo, "request": req}, True)
+                oracle_fail.append((case_size(c), req, mo, io, err, c))
             elif mo != io:
                 corr_fail += 1
-                if corr_fail <= 3:
-                    ctx.violation(f"correspondence model/implementation broken for a {'quantis' if c.quantis else 'retis'} zero swap "
-                                  f"(property oracle found no failing input among {len(reqs)} cases)",
-                                  {"kind": "lockstep", "correspondence": "c11 runner vs infretis.core.tis", "case": c.desc(),
-                                   "impl": io, "model": mo, "request": req}, False)
+                corr_bad.append((case_size(c), req, mo, io, c))
+        # smallest failing inputs first (the enumeration doubles as the shrinker)
+        oracle_fail.sort(key=lambda t: t[:2])
+        corr_bad.sort(key=lambda t: t[:2])
+        ctx.cov["oracle_failures"] = len(oracle_fail)
+        seen_msgs = set()
+        for _, req, mo, io, err, c in oracle_fail:
+            kind = err.split(":")[0][:60]
+            if kind in seen_msgs or len(seen_msgs) >= 4:
+                continue
+            seen_msgs.add(kind)
+            ctx.violation(f"C11 statement fails on the implementation: {err}",
+                          {"kind": "lockstep", "case": c.desc(), "impl": io, "model": mo, "request": req}, True)
+        for _, req, mo, io, c in corr_bad[:2]:
+            tail = ("the property oracle did find failing inputs, see the other replays" if oracle_fail
+                    else f"property oracle found no failing input among {len(reqs)} cases")
+            ctx.violation(f"correspondence model/implementation broken for a {'quantis' if c.quantis else 'retis'} zero swap "
+                          f"({corr_fail} of {len(reqs)} cases differ; {tail})",
+                          {"kind": "lockstep", "correspondence": "c11 runner vs infretis.core.tis", "case": c.desc(),
+                           "impl": io, "model": mo, "request": req}, False)
         for k in (0, len(reqs) // 3, len(reqs) // 2, len(reqs) - 1):
             ctx.sample({"request": reqs[k], "model": outs[k], "impl": metas[k][0]})
 
         # double swap with the reversible engine, on the real functions
-        nds = 0
+        nds = nds_fail = 0
         inits = double_swap_cases(ctx, rng, 300 if quick else 2000)
         for name, F, s0 in inits:
             for quantis in (False, True):
@@ -893,9 +912,12 @@ def run(ctx):
                             nds += 1
                             ctx.count(("ds", name, s0, quantis, lm1, maxlen), nontrivial=True)
                         if err:
-                            ctx.violation(f"C11 statement fails on the implementation: {err}",
-                                          {"kind": "double_swap", "force": name, "start": s0, "quantis": quantis, "lm1": lm1, "maxlen": maxlen}, True)
+                            nds_fail += 1
+                            if nds_fail <= 3:
+                                ctx.violation(f"C11 statement fails on the implementation: {err}",
+                                              {"kind": "double_swap", "force": name, "start": s0, "quantis": quantis, "lm1": lm1, "maxlen": maxlen}, True)
         ctx.cov["double_swaps_evaluated"] = nds
+        ctx.cov["double_swap_failures"] = nds_fail
         if nds < 50:
             ctx.violation("double-swap oracle evaluated on fewer than 50 cases (generator broken)", {"evaluated": nds}, False)
     finally:
